@@ -14,7 +14,7 @@ use std::time::Instant;
 pub struct Engine {
     pub id: &'static str,
     pub level: &'static str,
-    pub generate: fn(&mut Rng, Tier) -> Value,
+    pub generate: fn(&mut Rng, Tier, u64) -> Value,
     pub execute: fn(&Ctx, &Value, &RunDir, &mut Stats) -> HResult<Vec<Violation>>,
     pub shrink: fn(&Value) -> Vec<Value>,
     pub runs_quick: u64,
@@ -66,7 +66,7 @@ pub fn engines() -> Vec<Engine> {
         generate: crate::c13::generate,
         execute: crate::c13::execute,
         shrink: crate::c13::shrink,
-        runs_quick: 96,
+        runs_quick: 128,
         runs_thorough: 4800,
         cap_thorough_secs: 1500,
         rule: "one evaluation = one zerv child process judged by the clean-failure oracle; per scenario (seeded world state x command) the fault-free run is traced and then EVERY git invocation k x EVERY proxy fault kind is executed (enumerated, not sampled), plus whole-run git faults, 2-3 fault sequences, storage corruptions (target x manner), stdin / cwd / non-UTF-8 argv faults, interleaved repository mutations at every invocation index (thorough) and a seeded adversarial argv workload drawn from the flag set the binary itself reports; distinct = distinct (git sub-command, invocation index, fault kind, zerv sub-command, outcome class) tuples whose fault actually fired according to the proxy trace, plus distinct storage / stdin / cwd / whole-run / mutation placements",
@@ -171,7 +171,7 @@ struct RunResult {
 
 fn run_one(ctx: &Ctx, eng: &Engine, idx: u64) -> RunResult {
     let mut rng = Rng::for_run(ctx.seed, eng.id, idx / eng.shards);
-    let mut scenario = (eng.generate)(&mut rng, ctx.tier);
+    let mut scenario = (eng.generate)(&mut rng, ctx.tier, idx / eng.shards);
     if eng.shards > 1 {
         if let Some(o) = scenario.as_object_mut() {
             o.insert("shard".into(), json!([idx % eng.shards, eng.shards]));
